@@ -284,6 +284,19 @@ package semver
 // never empty; "empty" elements (0, "", ga, final, release) were trimmed at
 // the end and before every '-'.
 
+// isZeroMavenNumber (a loop over the digits) is used by symbol in the order
+// lemmas; what they need of it is proved here from its body.
+//@ opaque isZeroMavenNumber
+//@ lemma isZeroMavenNumber.facts
+//@   vars s string
+//@   unfold isZeroMavenNumber
+//@   ensures imp(s == "0", isZeroMavenNumber(s))
+//@   ensures imp(isZeroMavenNumber(s), len(s) >= 1 && s[0] == '0' && s[len(s)-1] == '0')
+//@   ensures !isZeroMavenNumber("")
+//@   pattern isZeroMavenNumber(s)
+//@   property C01
+//@   export
+
 //@ pred mvnElemOK(e mavenElement, first bool) =
 //@      e.str != "" && (fst(mavenCategory(e.str)) == versionNumeric || fst(mavenCategory(e.str)) == versionQualifier) &&
 //@      imp(first, e.sep == 0) && imp(!first, e.sep == '.' || e.sep == '-') &&
